@@ -21,7 +21,7 @@ import warnings
 import pyrtl
 from pyrtl.rtllib import muxes, barrel, libutils
 
-RULE = ('[slice model: proved = CPython slice.indices = the declarative Python slice for all lengths/bounds (Props/C14Slice.v); still compared with list(range(n))[s:e] for n<=9 on every run] [calling forms: every fixed-signature helper is called positionally, by keywords (both orders) and mixed, '
+RULE = ('[bitfield_update(_set) new values: wires of every width relation and Python ints of every kind (negative / zero / positive x fits / too wide) x truncating True/False, simulated] [match_bitpattern field_map: every order of the map keys, extra keys, a missing key; fields read positionally AND by mapped name] [slice model: proved = CPython slice.indices = the declarative Python slice for all lengths/bounds (Props/C14Slice.v); still compared with list(range(n))[s:e] for n<=9 on every run] [calling forms: every fixed-signature helper is called positionally, by keywords (both orders) and mixed, '
         'round-robin; mux also in its deprecated truecase=/falsecase= keyword form and its keyword misuses] '
         '[bitfield_update_set: EVERY ordered pair of distinct (start,end) keys over {None,-n-1..n+1} for n<=3 (4 in '
         'thorough), ordered triples / wider wires with one alias per bit interval; overlap decided on bit sets] '
@@ -38,7 +38,8 @@ IMPORTS = ('From Coq Require Import ZArith List Ascii String.\n'
            'Import ListNotations. Open Scope Z_scope. Open Scope string_scope.')
 COQ_TARGETS = ['theories/Front/C14Harness.vo']
 PROPS_FILES = ['theories/Props/C14.v', 'theories/Props/C14Tie.v', 'theories/Props/C14Slice.v']
-TRUSTED = ['py/genfrag_C14.py: fragment locator + pyfrag expression translator (Gen/MuxRules.v)',
+TRUSTED = ['py/genfrag_C14.py: fragment locator + pyfrag expression translator (Gen/MuxRules.v); py/genfrag_C16.py for '
+           'Gen/Conv.v convert_int (used by C14_int_newvalue_tie)',
            'py/checks/C14.py oracles: plain-Python bit-level reading of the docstrings of the helpers',
            'Front/PySliceProofs.v is_slice_of: the declarative statement of Python slicing from the language reference '
            '(shared with C06).  Front/SliceC14.v pyslice is NO LONGER trusted: Props/C14Slice.v proves, for every length '
@@ -49,7 +50,7 @@ ASSUMPTIONS = ['bit_in, direction and every prioritized_mux select are 1-bit wir
                'segment widths, partition sizes, component bitwidths and matrix sizes are positive',
                'pattern characters are ASCII; field letters are valid Python identifiers',
                'MultiSelector.default is called at most once; dictionary keys are ints or "default"',
-               'integer new values / option values are non-negative',
+               'MultiSelector option values are non-negative ints (bitfield_update(_set) int new values: any sign)',
                'wire identity in sparse_mux (_is_equivalent) is modelled by tags supplied by the harness',
                'wire_struct/wire_matrix components are driven by ints, WireVectors of any width (<<= truncates '
                'or zero-extends) or slices; Input/Register component types are not exercised']
